@@ -319,7 +319,10 @@ def curve_predicates(cx):
         A_ = 'Eq(u256_cmp(fp_sqr($self.y), fp_add(SM9_MODP_MONT_FIVE, fp_mul($self.x, fp_sqr($self.x)))), 0)'
         J_ = 'Eq(u256_cmp(fp_sqr($self.y), fp_add(fp_mul($self.x, fp_sqr($self.x)), fp_mul(SM9_MODP_MONT_FIVE, fp_mul(%s, fp_sqr(%s))))), 0)' % (Z2, Z2)
         split_ok = sorted(v for _, v in r) == sorted([A_, J_]) and any('SM9_MODP_MONT_ONE' in ' '.join(c) for c, v in r if v == A_)
-        cx.add('I-CURVE', 'sm9/is_on_curve', [v for _, v in r] == [want] or split_ok, 'y^2 == x^3 + 5 (Z = 1) / y^2 == x^3 + 5 z^6: %s' % r, fn.loc())
+        # y^2 (and x^3) computed once before the two right-hand sides; which side goes with z == 1 is decided by A-CURVE
+        # (the affine form is not weighted-homogeneous unless z is the constant 1 on its path)
+        want2 = 'Eq(u256_cmp(fp_sqr($self.y), phi(fp_add(SM9_MODP_MONT_FIVE, fp_mul($self.x, fp_sqr($self.x))) | fp_add(fp_mul($self.x, fp_sqr($self.x)), fp_mul(SM9_MODP_MONT_FIVE, fp_mul(%s, fp_sqr(%s)))))), 0)' % (Z2, Z2)
+        cx.add('I-CURVE', 'sm9/is_on_curve', [v for _, v in r] in ([want], [want2]) or split_ok, 'y^2 == x^3 + 5 (Z = 1) / y^2 == x^3 + 5 z^6: %s' % r, fn.loc())
 
 
 def acc_defs(cx, inst, fn, var, rng, call=None):
